@@ -62,7 +62,8 @@ def scratch_root():
 
 def run_check(prop, repo_dir):
     env = dict(os.environ)
-    env.update(QUICK_ENV[prop])
+    if not os.environ.get("SENS_FULL"):
+        env.update(QUICK_ENV[prop])
     env["VERIF_REPO"] = repo_dir
     env["VERIF_SENSITIVITY"] = "1"
     p = subprocess.run([os.path.join(VERIF, "check"), prop, "quick"], env=env, capture_output=True, text=True, timeout=3000)
